@@ -24,10 +24,25 @@ EPS = Fraction(1, 2 ** 45)
 
 
 def mk(LPoly, coefs, dmin):
-    # integer-valued vectors are handed over as Python ints (NumPy integer arrays inside the class)
-    if coefs and all(float(c).is_integer() and abs(c) < 2 ** 20 for c in coefs) and (hash(tuple(coefs)) % 2 == 0):
-        return LPoly([int(c) for c in coefs], dmin)
+    # integer-valued vectors are handed over in the forms callers use: Python ints, integer ndarrays of the narrowest
+    # dtype that holds them (int8 .. int64), or floats; which one is a fixed function of the vector
+    if coefs and all(float(c).is_integer() and abs(c) < 2 ** 53 for c in coefs):
+        h = zlib_hash(coefs) % 4
+        ints = [int(c) for c in coefs]
+        if h == 0:
+            return LPoly(ints, dmin)
+        if h == 1:
+            m = max(abs(i) for i in ints)
+            dt = np.int8 if m < 2 ** 7 else np.int16 if m < 2 ** 15 else np.int32 if m < 2 ** 31 else np.int64
+            return LPoly(np.array(ints, dtype=dt), dmin)
+        if h == 2:
+            return LPoly(np.array(ints, dtype=np.int64), dmin)
     return LPoly(list(coefs), dmin)
+
+
+def zlib_hash(coefs):
+    import zlib
+    return zlib.crc32(repr([float(c) for c in coefs]).encode())
 
 
 def enc(coefs, dmin):
